@@ -21,6 +21,7 @@ package randomness
 
 //@ func subsequencepattern
 //@   requires 0 <= m && m <= len(bits)
+//@   reads bits[0 .. m)
 //@   modifies nothing
 //@   ensures r0 == pat(bits, 0, m)
 //@   ensures 0 <= r0 && r0 < pow2(m)
@@ -91,6 +92,7 @@ package randomness
 
 //@ func FrequencyWithinBlockProto
 //@   requires 1 <= m && m <= len(bits)
+//@   reads bits[0 .. (len(bits)/m)*m)
 //@   modifies nothing
 //@   pure
 //@   let N := len(bits@pre) / m
@@ -109,6 +111,7 @@ package randomness
 //@ func PokerProto
 //@   cases m in {2, 4, 8}
 //@   requires len(bits) >= 8
+//@   reads bits[0 .. (len(bits)/m)*m)
 //@   modifies nothing
 //@   pure
 //@   ensures r1 == r0 && 0.0 <= r0 && r0 <= 1.0
@@ -258,6 +261,7 @@ package randomness
 //@ func LongestRunOfOnesInABlockProto
 //@   cases checkOne in {true, false}
 //@   requires len(bits) >= 128
+//@   reads bits[0 .. (len(bits) < 6272 ? (len(bits)/8)*8 : len(bits) < 750000 ? (len(bits)/128)*128 : (len(bits)/10000)*10000))
 //@   modifies nothing
 //@   pure
 //@   assert before loop 1: (n < 6272 && param.m == 8 && param.k == 3 && param.startV == 1) || (6272 <= n && n < 750000 && param.m == 128 && param.k == 5 && param.startV == 4) || (750000 <= n && param.m == 10000 && param.k == 6 && param.startV == 10)
@@ -370,6 +374,7 @@ package randomness
 //@   cases M in {32}
 //@   cases Q in {32}
 //@   requires len(bits) >= 1024
+//@   reads bits[0 .. (len(bits)/1024)*1024)
 //@   modifies nothing
 //@   pure
 //@   loop 1
@@ -424,6 +429,7 @@ package randomness
 
 //@ func LinearComplexityProto
 //@   requires 1 <= m && m <= len(bits)
+//@   reads bits[0 .. (len(bits)/m)*m)
 //@   modifies nothing
 //@   pure
 //@   loop 1
@@ -453,6 +459,7 @@ package randomness
 
 //@ func MaurerUniversalTest
 //@   requires len(bits) >= 8967
+//@   reads bits[0 .. (len(bits)/7)*7)
 //@   modifies nothing
 //@   pure
 //@   wraps tmp
